@@ -11,8 +11,24 @@ say which item an operation renames/queries and what the file's original names a
 All theorems quantify over every file `d` satisfying the decidable `Dex.wf` (class_defs name
 distinct existing types, encoded members denote distinct existing id items — no assumption that
 names are unshared) and over every history of operations.
+
+Edges of the tables (audit follow-up).  `Dex.wf` does not bound string / type indices *inside* the
+id tables.  For those the model is not totalised by an arbitrary default: `rawString` / `getType`
+answer the texts "AG:IS: invalid string" / "AG:ITI: invalid type", which is literally what
+ClassManager.get_raw_string / get_type RETURN (they do not raise) for an index outside the pool;
+the harness compares the two texts with the real code on every run (stream
+`invalid-index-markers`).  So under `wf` alone the dictionary's "original name" of an item whose
+name index is outside the pool is that marker, on both sides, as in the code.  The theorems
+`*_in_range` below restate the property for files in which every index is in range
+(`Dex.wfFull`, what the driver insists on and what every file of the correspondence satisfies),
+and `no_fallback_*` show that there no marker or default is involved at all.  Operations whose own
+index is out of range (a class_def / encoded member / id item / const-string that does not
+exist) are outside the model: they answer `Out.err`, change nothing (`out_of_range_is_err`), are
+read as `other` by `view`, and are never sent by the harness — the real code answers its
+`AG:I?I:invalid_*` placeholder objects there or raises AttributeError.
 -/
 import AgVerif.Proof.RenameSim
+import AgVerif.Proof.RenameRange
 import AgVerif.Gen.RenameCfg
 namespace AgVerif.C17
 open AgVerif.Rename AgVerif.Spec.Rename
@@ -66,6 +82,61 @@ theorem const_strings_unchanged (d : Dex) (hwf : d.wf = true) (ops : List Op) (k
   simp only [view, hk, if_true] at h2
   exact agree1_some h2
 
+/-! ### edges of the tables -/
+
+/-- An operation addressed to a class_def / encoded member / id item / constant that does not exist
+    answers `err` and leaves the state alone (for every configuration): such operations are
+    excluded visibly, not absorbed by a default. -/
+theorem out_of_range_is_err (c : Cfg) (d : Dex) (s : State) (op : Op)
+    (h : opInRange d op = false) : step c d s op = (s, .err) :=
+  out_of_range_step c d s op h
+
+/-- … and the specification demands nothing of them. -/
+theorem out_of_range_is_unjudged (d : Dex) (op : Op) (h : opInRange d op = false) :
+    view d op = .other := by
+  cases op <;> simp only [opInRange, decide_eq_false_iff_not] at h <;>
+    simp [view, h]
+
+/-- `rename_refines` for files in which EVERY index of every table is in range. -/
+theorem rename_refines_in_range (d : Dex) (hfull : d.wfFull = true) (ops : List Op) :
+    agreeB (outs cfg d (init d) ops) (run (world d) (ops.map (view d))) = true :=
+  rename_refines d (wfFull_wf d hfull) ops
+
+/-- In such a file the original name of a class is a string of the file (no marker, no default). -/
+theorem no_fallback_class (d : Dex) (hfull : d.wfFull = true) (c : Nat) (cd : ClassDef)
+    (hc : d.classes[c]? = some cd) :
+    ∃ si s, d.types[cd.cls]? = some si ∧ d.strings[si]? = some s ∧
+      (world d).orig (.cls cd.cls) = s := by
+  have w := wfFull_of_wfFullB d hfull
+  obtain ⟨si, hsi⟩ := exists_get' _ _ (w.cls c cd hc)
+  obtain ⟨s, hs, hr⟩ := rawString_in_file d si (w.typ _ _ hsi)
+  exact ⟨si, s, hsi, hs, by simp [world, rawType, hsi, hr]⟩
+
+/-- … of a method (every method id, encoded or external) -/
+theorem no_fallback_method (d : Dex) (hfull : d.wfFull = true) (m : Nat) (mid : MethodId)
+    (hm : d.methods[m]? = some mid) :
+    ∃ s, d.strings[mid.name]? = some s ∧ (world d).orig (.meth m) = s := by
+  have w := wfFull_of_wfFullB d hfull
+  obtain ⟨s, hs, hr⟩ := rawString_in_file d mid.name (w.meth m mid hm).2.2
+  exact ⟨s, hs, by simp [world, hm, hr]⟩
+
+/-- … of a field -/
+theorem no_fallback_field (d : Dex) (hfull : d.wfFull = true) (f : Nat) (fid : FieldId)
+    (hf : d.fields[f]? = some fid) :
+    ∃ s, d.strings[fid.name]? = some s ∧ (world d).orig (.fld f) = s := by
+  have w := wfFull_of_wfFullB d hfull
+  obtain ⟨s, hs, hr⟩ := rawString_in_file d fid.name (w.fld f fid hf).2.2
+  exact ⟨s, hs, by simp [world, hf, hr]⟩
+
+/-- … and the text demanded of a const-string is built from a string of the file. -/
+theorem no_fallback_const (d : Dex) (hfull : d.wfFull = true) (k reg si : Nat)
+    (hk : d.consts[k]? = some (reg, si)) :
+    ∃ s, d.strings[si]? = some s ∧
+      (world d).const k = "v" ++ toString reg ++ ", \"" ++ s ++ "\"" := by
+  have w := wfFull_of_wfFullB d hfull
+  obtain ⟨s, hs, hr⟩ := rawString_in_file d si (w.const k reg si hk)
+  exact ⟨s, hs, by simp [world, hk, hr]⟩
+
 /-- a file with deliberately shared names: methods `x` in two classes, a field `x`, const-string "x" -/
 def shared : Dex :=
   { strings := ["I", "La;", "Lb;", "V", "x"],
@@ -114,6 +185,17 @@ example : outs fixedCfg shared (init shared)
 
 /-- the hypotheses of `unrenamed_keeps_original` hold for the second method `x` in the D8 history -/
 example : view shared (.methodName 1) = .name (.meth 1) := rfl
+/-- edges: an existing and a non-existing encoded method; the latter answers `err` -/
+example : opInRange shared (.methodName 1) = true ∧ opInRange shared (.methodName 2) = false := by decide
+example : (step fixedCfg shared (init shared) (.methodName 2)).2 = .err := by decide
+example : (step fixedCfg shared (init shared) (.renameClass 5 "Lq;")).2 = .err := by decide
+/-- `wf` without `wfFull`: a method whose name index is outside the pool reports the marker the
+    real get_raw_string returns, and can still be renamed -/
+example :
+    let d : Dex := { shared with methods := [{ cls := 1, proto := 0, name := 77 }, { cls := 2, proto := 0, name := 4 }] }
+    d.wf = true ∧ d.wfFull = false ∧
+    outs fixedCfg d (init d) [.methodName 0, .renameMethod 0 "y", .methodName 0, .methodName 1] =
+      [.str "AG:IS: invalid string", .unit, .str "y", .str "x"] := by decide
 example : ∀ op ∈ d8, ∀ v, view shared op ≠ .rename (.meth 1) v := by
   intro op hop v
   simp only [d8, List.mem_cons, List.mem_nil_iff, or_false] at hop
